@@ -545,13 +545,13 @@ def generate(ctx):
     yield "pad1d", {"cs": [0], "l": 1, "r": 0, "mode": "wrap"}
     yield "pad1d", {"cs": [0], "l": 0, "r": 0, "mode": "reflect"}
     # --- exhaustive small spaces: every chunking of n <= 4 (6 thorough), every pad width within the axis ---
-    top = 3 if not ctx.thorough() else 6
+    top = 3 if not ctx.thorough() else 5
     for n in range(1, top + 1):
         for cs in comps(n):
             for mode in REUSE:
                 lim = 2 * n + 1   # up to more than two periods on each side
                 for l in range(0, lim + 1):
-                    for r in ([0, n, lim] if not ctx.thorough() else range(0, lim + 1)):
+                    for r in ([0, n, lim] if not ctx.thorough() else range(0, lim + 1, 2)):
                         yield "pad1d", {"cs": list(cs), "l": l, "r": r, "mode": mode}
             for s in range(-n - 1, n + 2):
                 yield "roll1d", {"cs": list(cs), "shift": s}
